@@ -154,6 +154,13 @@ let fmt_path (h : hp) (p : n edge list) : string =
   Buffer.add_string b " nodes";
   List.iter (fun u -> Buffer.add_string b (" " ^ key_str h u)) (path_nodes p);
   Buffer.add_string b (Printf.sprintf " len %d" (List.length p + 1));
+  (* first_edge last_edge first_node (= target of the first edge, as coded) last_node path[0] to_vec_edges iter_nodes().count() *)
+  let fe ((s, t), e) = fmt_edge h s t e in
+  let first = (match p with x :: _ -> Some x | [] -> None) and last = (match List.rev p with x :: _ -> Some x | [] -> None) in
+  let so f o = (match o with Some x -> f x | None -> "") in
+  Buffer.add_string b (Printf.sprintf " acc %s %s %s %s %s %s %d" (so fe first) (so fe last)
+    (so (fun ((_, t), _) -> key_str h t) first) (so (fun ((_, t), _) -> key_str h t) last)
+    (so fe first) (String.concat "" (List.map fe p)) (List.length (path_nodes p)));
   Buffer.contents b
 
 (* ---------- containers ---------- *)
